@@ -106,6 +106,10 @@ func genSplice(t *rapid.T, allowForeign bool) ref.Splice {
 		i.Comps = []ref.SpliceComp{}
 		if !i.Prog {
 			nc := rapid.IntRange(0, 4).Draw(t, "ins-ncomps")
+			if rapid.IntRange(0, 9).Draw(t, "ins-many-comps") == 0 {
+				// component_count is an 8-bit field: commands longer than 255 bytes (splice_command_length is 12 bits)
+				nc = rapid.SampledFrom([]int{41, 42, 43, 60, 100, 255}).Draw(t, "ins-ncomps-many")
+			}
 			for k := 0; k < nc; k++ {
 				i.Comps = append(i.Comps, ref.SpliceComp{Tag: rapid.Byte().Draw(t, "ins-ctag"), HasPTS: rapid.Bool().Draw(t, "ins-chas"), PTS: genBits(t, 33, "ins-cpts")})
 			}
